@@ -385,8 +385,12 @@ func (c *Channel) put(m *Message) error {
 }
 
 func (c *Channel) PutMessageDeferred(msg *Message, timeout time.Duration) {
+	err := c.StartDeferredTimeout(msg, timeout)
+	if err != nil {
+		c.nsqd.logf(LOG_ERROR, "CHANNEL(%s): failed to defer message(%s) - %s", c.name, msg.ID, err)
+		return
+	}
 	atomic.AddUint64(&c.messageCount, 1)
-	c.StartDeferredTimeout(msg, timeout)
 }
 
 // TouchMessage resets the timeout for an in-flight message
